@@ -282,6 +282,167 @@ func runC04(c *Ctx) {
 
 	runC04CurrentSeat(c, ea)
 	runC04SeatSuccessor(c, ea)
+	runNoStaleOffers(c, ea, "no-offers-outside-action-wait", "")
+}
+
+// clearAllFns: methods of the game that empty every player's AllowedActions (a full-range
+// loop over the players whose every body path stores an empty slice or calls a player method
+// that does).
+func (c *Ctx) clearAllFns(ea *engineAnchors) map[*ssa.Function]bool {
+	p := c.P
+	out := map[*ssa.Function]bool{}
+	for _, fn := range p.MethodsOf("pokerface", ea.gameImpl) {
+		s := newSumm(p, 2)
+		for _, l := range s.loops(fn) {
+			ri := analyseRange(l)
+			if !ri.Full || len(l.Exits) != 1 {
+				continue
+			}
+			fromAll := loadsField(ri.Coll, "pokerface.GameState.Players")
+			if call, ok := ri.Coll.(*ssa.Call); ok {
+				if f := call.Common().StaticCallee(); f != nil && f.Name() == "GetPlayers" {
+					fromAll = true
+				}
+			}
+			if !fromAll {
+				continue
+			}
+			body, cut := s.LoopBody(fn, l)
+			if cut != "" || len(body) == 0 {
+				continue
+			}
+			all := true
+			for _, bp := range body {
+				cleared := false
+				for _, e := range bp.storesTo("pokerface.PlayerState.AllowedActions") {
+					if isEmptyVal(e.Val) {
+						cleared = true
+					} else {
+						cleared = false
+					}
+				}
+				if !cleared || bp.End != "continue" {
+					all = false
+				}
+			}
+			if all {
+				out[fn] = true
+			}
+		}
+	}
+	return out
+}
+
+// runNoStaleOffers: whenever the event chain comes to rest at a wait point other than the one
+// at which actions are taken, every seat's offers have been cleared since the last grant:
+// otherwise a betting action would be accepted in the wrong phase (C04) or after the hand is
+// closed (C06).
+func runNoStaleOffers(c *Ctx, ea *engineAnchors, rule string, only string) {
+	p := c.P
+	eg := buildEventGraph(c, ea)
+	if eg.Trigger == nil {
+		c.undecided(rule, "event-graph", "-", "cannot build the event graph")
+		return
+	}
+	clear := c.clearAllFns(ea)
+	c.role("clear-all-offers functions", fnNames(fnSetToList(clear)))
+	if len(clear) == 0 {
+		c.undecided(rule, "clear-all", "-", "no function clears every player's offers")
+		return
+	}
+	// the action wait: the wait event whose handler can make a seat current
+	actionWait := ""
+	for ev, h := range eg.Handler {
+		if h == nil {
+			continue
+		}
+		waits := false
+		for _, o := range eg.Outcomes(h) {
+			if o.Kind == "wait" {
+				waits = true
+			}
+		}
+		if !waits {
+			continue
+		}
+		for callee := range p.Index().Info[h].TCalls {
+			if callee.Name() == "SetCurrentPlayer" {
+				actionWait = ev
+			}
+		}
+	}
+	c.role("action wait event", actionWait)
+	isGrant := func(e *Event) bool {
+		if e.Kind != "call" && e.Kind != "enter" {
+			return false
+		}
+		if strings.HasSuffix(e.Callee, ".SetCurrentPlayer") && len(e.Args) >= 2 && e.Args[1].String() != "nil" {
+			return true
+		}
+		return strings.HasSuffix(e.Callee, ".AllowActions")
+	}
+	isClear := func(e *Event) bool {
+		return (e.Kind == "call" || e.Kind == "enter") && e.Fn != nil && clear[e.Fn]
+	}
+	type entry struct {
+		fn     *ssa.Function
+		resume string
+	}
+	var entries []entry
+	for _, m := range backendMethods(p) {
+		if g := p.Func("pokerface", ea.gameImpl, m); g != nil && m != "CreateGame" {
+			entries = append(entries, entry{g, actionWait})
+		}
+	}
+	entries = append(entries, entry{p.Func("pokerface", ea.gameImpl, "Start"), ""})
+	for _, am := range c.actionMethods(ea) {
+		entries = append(entries, entry{am.Fn, actionWait})
+	}
+	nTraces := 0
+	seen := map[*ssa.Function]bool{}
+	for _, en := range entries {
+		if en.fn == nil || seen[en.fn] {
+			continue
+		}
+		seen[en.fn] = true
+		var bad []string
+		n := 0
+		for _, tr := range eg.Traces(en.fn, en.resume) {
+			if tr.End != "wait" || tr.Wait == "" || tr.Wait == actionWait {
+				continue
+			}
+			if only != "" && tr.Wait != only {
+				continue
+			}
+			n++
+			holding := ""
+			for _, e := range tr.Events {
+				if isClear(e) {
+					holding = ""
+				} else if isGrant(e) {
+					holding = e.Callee + " at " + e.Pos
+				}
+			}
+			if holding != "" {
+				bad = append(bad, fmt.Sprintf("the chain %s comes to rest at %s while a seat still holds the offers granted by %s", strings.Join(tr.Emits, " -> "), tr.Wait, holding))
+			}
+		}
+		nTraces += n
+		if n == 0 {
+			continue
+		}
+		c.check(len(bad) == 0, rule, fnKey(en.fn), p.FnPos(en.fn), fmt.Sprintf("on all %d chains that rest outside the action wait, offers were cleared after the last grant", n), "stale offers survive into a phase where no action is expected", uniq(bad, 3)...)
+	}
+	c.floor(rule, "event chains ending at a non-action wait", nTraces, 3)
+}
+
+func fnSetToList(m map[*ssa.Function]bool) []*ssa.Function {
+	var out []*ssa.Function
+	for f := range m {
+		out = append(out, f)
+	}
+	sort.Slice(out, func(i, j int) bool { return fnKey(out[i]) < fnKey(out[j]) })
+	return out
 }
 
 type constUse struct {
